@@ -56,8 +56,9 @@ class Gateway:
     @protocol_version.setter
     def protocol_version(self, value: str) -> None:
         """Return the protocol version."""
+        protocol = get_protocol(value)
         self._protocol_version = value
-        protocol = self._protocol = get_protocol(self._protocol_version)
+        self._protocol = protocol
         self._message_schema.set_protocol(protocol)
 
     async def listen(self) -> AsyncGenerator[Message, None]:
